@@ -71,6 +71,9 @@ type w2chainRec struct {
 	Resp *dns.Msg // deep copy of what the chain left (nil = none)
 	OrigQ dns.Question
 	ID   uint16
+	// option codes of the upstream OPT that belongs to THIS query's own exchange
+	// (nil: the foreground path had no upstream reply, e.g. a cache hit)
+	UpCodes map[uint16]bool
 }
 
 type w2upq struct {
@@ -100,6 +103,7 @@ type w2cfg struct {
 	closers  []func()
 	pMalformed int
 	concurrent int
+	gap      time.Duration // pause before the second round of the same questions (0 = none)
 }
 
 func w2Setup(rc *RunCtx, mode string) simrt.Config {
@@ -117,6 +121,7 @@ func w2Setup(rc *RunCtx, mode string) simrt.Config {
 		c.upBehav = append(c.upBehav, r.Choose(3))
 	}
 	c.concurrent = 1 + r.Choose(3)
+	c.gap = []time.Duration{0, 2 * time.Second, 7 * time.Second, 40 * time.Second}[r.Choose(4)]
 	c.pMalformed = []int{0, 0, 15}[r.Choose(3)]
 	c.rules = w2GenRules(r, c)
 	var txt []string
@@ -169,10 +174,10 @@ func w2GenRules(r *simrt.Rand, c *w2cfg) []sequence.RuleArgs {
 		case 6:
 			ra.Exec = []string{"prefer_ipv4", "prefer_ipv6"}[r.Choose(2)]
 		case 7:
-			k := r.Choose(3)
-			ra.Exec = []string{"$ecs_forward", "$ecs_preset", "$ecs_send"}[k]
+			k := r.Choose(5)
+			ra.Exec = []string{"$ecs_forward", "$ecs_preset", "$ecs_send", "$ecs_forward_preset", "$ecs_forward_send"}[k]
 			c.ecsAny = true
-			if k == 0 {
+			if k == 0 || k >= 3 {
 				c.ecsForward = true
 			}
 		case 8:
@@ -362,6 +367,12 @@ func (e *w2recorder) Exec(ctx context.Context, qCtx *query_context.Context) erro
 			}
 		}
 	}
+	if uo := qCtx.UpstreamOpt(); uo != nil {
+		rec.UpCodes = map[uint16]bool{}
+		for _, o := range uo.Option {
+			rec.UpCodes[o.Option()] = true
+		}
+	}
 	e.c.chain[w2key(qCtx.ServerMeta.ClientAddr, id)] = rec
 	return err
 }
@@ -388,7 +399,8 @@ func (c *w2cfg) build(rc *RunCtx) (*server_handler.EntryHandler, error) {
 		return nil, err
 	}
 	reg["arbitrary"] = ar
-	for name, a := range map[string]ecs_handler.Args{"ecs_forward": {Forward: true}, "ecs_preset": {Preset: "9.8.7.6"}, "ecs_send": {Send: true}} {
+	for name, a := range map[string]ecs_handler.Args{"ecs_forward": {Forward: true}, "ecs_preset": {Preset: "9.8.7.6"}, "ecs_send": {Send: true},
+		"ecs_forward_preset": {Forward: true, Preset: "9.8.7.6"}, "ecs_forward_send": {Forward: true, Send: true}} {
 		h, err := ecs_handler.NewHandler(a)
 		if err != nil {
 			return nil, err
@@ -528,15 +540,46 @@ func w2Main(rc *RunCtx) {
 			}
 		}
 		ids = uniq
-		var qs []*w2query
+		var qs, qs2 []*w2query
 		for s := 0; s < c.perClient[ci] && s < len(ids); s++ {
 			wq := c.genQuery(ci, s, ids[s])
 			qs = append(qs, wq)
 			c.queries = append(c.queries, wq)
 		}
+		// second round: the same questions again later (cache hits, stale/lazy hits), fresh IDs
+		if c.gap > 0 {
+			used := map[uint16]bool{}
+			for _, id := range ids {
+				used[id] = true
+			}
+			for _, wq := range qs {
+				if wq.Malformed != "" {
+					continue
+				}
+				nid := wq.Msg.Id + 7
+				for used[nid] {
+					nid++
+				}
+				used[nid] = true
+				m := wq.Msg.Copy()
+				m.Id = nid
+				w2 := &w2query{Client: ci, Seq: wq.Seq + 100, Msg: m, Wire: packOrPanic(m), HasOpt: wq.HasOpt, OptSize: wq.OptSize, DO: wq.DO, Opts: wq.Opts}
+				qs2 = append(qs2, w2)
+				c.queries = append(c.queries, w2)
+			}
+		}
 		addr := netip.MustParseAddr(fmt.Sprintf("10.7.0.%d", ci+1))
 		simrt.GoNamed(fmt.Sprintf("client%d", ci), func() {
 			defer simrt.Send(0, done, struct{}{})
+			rounds := [][]*w2query{qs}
+			if len(qs2) > 0 {
+				rounds = append(rounds, qs2)
+			}
+			for ri, qs := range rounds {
+			if ri == 1 {
+				simrt.Sleep(0, c.gap)
+				simrt.Probe("w2.second_round")
+			}
 			switch c.transports[ci] {
 			case 1:
 				c.clientTCP(rc, ci, qs)
@@ -589,6 +632,7 @@ func w2Main(rc *RunCtx) {
 				for range qs {
 					simrt.Recv(0, qd)
 				}
+			}
 			}
 		})
 	}
@@ -850,15 +894,29 @@ func (c *w2cfg) checkC15client(rc *RunCtx, wq *w2query) {
 		rc.Fail("opt_ttl_field_altered", "reply OPT ttl field %#x (version %d): %s", o.Hdr.Ttl, o.Version(), c.desc(wq))
 		return
 	}
+	rec := c.chain[w2key(netip.MustParseAddr(fmt.Sprintf("10.7.0.%d", wq.Client+1)), wq.Msg.Id)]
+	clientSent := map[uint16]bool{}
+	for _, cd := range wq.Opts {
+		clientSent[cd] = true
+	}
 	for _, op := range o.Option {
 		code := op.Option()
+		// An option may reach the client only from the upstream reply of this
+		// query's own exchange ...
+		if rec == nil || !rec.UpCodes[code] {
+			rc.Fail("foreign_option_in_reply", "reply OPT carries option %d, but the upstream reply of this query's own exchange had no such option (cache hit / other exchange): %s", code, c.desc(wq))
+			return
+		}
+		// ... and only if a configured plugin forwards it explicitly:
+		// forward_edns0opt for its listed codes, ecs_handler(forward) only when it
+		// forwarded the client's own ECS.
 		if c.fwdCodes[code] {
 			continue
 		}
-		if code == dns.EDNS0SUBNET && c.ecsForward {
+		if code == dns.EDNS0SUBNET && c.ecsForward && clientSent[dns.EDNS0SUBNET] {
 			continue
 		}
-		rc.Fail("upstream_option_leaked_to_client", "reply OPT carries option %d which no configured plugin forwards: %s", code, c.desc(wq))
+		rc.Fail("upstream_option_leaked_to_client", "reply OPT carries option %d which no configured plugin forwards for this query (client sent options %v): %s", code, wq.Opts, c.desc(wq))
 		return
 	}
 }
